@@ -279,4 +279,23 @@ theorem wellTyped_ints (op : BinOp) (a b : CT) (hi : op.intOnly = true) (h : wel
     a.isFloating = false ∧ b.isFloating = false := by
   simpa [wellTypedBin, hi] using h
 
+/-! ## maxima of a platform with ordered sizes -/
+
+theorem maxValue_mono {a b : Nat} (h : a ≤ b) : maxValue a ≤ maxValue b := by
+  unfold maxValue
+  by_cases hb : b ≥ 64
+  · by_cases ha : a ≥ 64
+    · simp [ha, hb]
+    · simp only [ha, hb, if_true, if_false]
+      have : 2 ^ (a - 1) ≤ 2 ^ 63 := Nat.pow_le_pow_right (by decide) (by omega)
+      omega
+  · have ha : ¬ a ≥ 64 := by omega
+    simp only [ha, hb, if_false]
+    have : 2 ^ (a - 1) ≤ 2 ^ (b - 1) := Nat.pow_le_pow_right (by decide) (by omega)
+    omega
+
+theorem imax_le_lmax_of_sane (P : Plat) (h : sane P = true) : imaxOf P ≤ lmaxOf P := by
+  simp only [sane, Bool.and_eq_true, decide_eq_true_eq] at h
+  exact maxValue_mono (Nat.mul_le_mul_left _ h.1.1.1.1.2)
+
 end Cppcheck.ConvSpec
